@@ -3,6 +3,18 @@
 Every cell builds the expected object from the request alone (NumPy / Python dictionaries), never through another
 pyttb generator.  Randomised generators (tenrand, sptenrand, sptensor.from_function) are seeded with the generated
 ``np_seed`` right before each call, so a case is reproducible and "same seed twice" is itself a checked clause.
+
+Round 2.  *Every generator is called twice with the same arguments*: the first result is judged, then overwritten in
+place through the object's own assignment interface (a caller may do what it likes with a tensor it was given), then the
+generator is called again and the second result is judged by the same clauses (tagged ``/second-call``) - a generator
+that hands out a cached or shared buffer fails there.  The random generators additionally see an unrelated request
+between the two seeded calls.  A case that fails a ``/second-call`` clause carries the whole history (call, overwrite, call)
+and therefore reproduces in a fresh process; the enumerated teneye cases, which repeat the same (ndims, size), are run in
+a forked child each (``isolated``) so that a buffer kept by a defective generator cannot leak into the next case.  *Dtypes*: shapes
+as int32 / uint8 arrays and numpy scalars, element vectors and aggregated values in integer / boolean dtypes, subscripts in
+int32 / uint8 / uint16 (also with indices at the top of the dtype's range), counts as numpy scalars where the signature
+accepts them.  Reducers by name and as the matching NumPy callable; exact cancellation also for general floats; values
+scaled by 1e-6 / 1e+6 (relative bounds only).
 """
 
 from __future__ import annotations
@@ -18,6 +30,7 @@ import pyttb as ttb
 
 from .. import gen, ref
 from ..core import cell
+from ._c16_helpers import isolated
 
 PROPERTY = "C20"
 
@@ -42,7 +55,8 @@ ASSUMPTIONS = [
     "requests >= 1: floor(nonzeros); fractions < 1 given as nonzeros: ceil(fraction*size) (docstring of from_function)",
 ]
 
-_SHAPE_FORMS = ["tuple", "list", "ndarray", "ndarray-col", "npint-list"]
+_SHAPE_FORMS = ["tuple", "list", "ndarray", "ndarray-col", "npint-list", "ndarray-int32", "ndarray-uint8", "npint32-tuple",
+                "npuint8-tuple"]
 
 
 def _shape_arg(shape, form):
@@ -56,20 +70,61 @@ def _shape_arg(shape, form):
         return np.array(shape, dtype=int).reshape(-1, 1)
     if form == "npint-list":
         return [np.int64(s) for s in shape]
+    if form == "ndarray-int32":
+        return np.array(shape, dtype=np.int32)
+    if form == "ndarray-uint8":  # (every generated mode size is far below 256; the product need not be)
+        return np.array(shape, dtype=np.uint8)
+    if form == "npint32-tuple":
+        return tuple(np.int32(s) for s in shape)
+    if form == "npuint8-tuple":  # e.g. tuple(np.array(..., dtype=np.uint8)): entries fit, their product need not
+        return tuple(np.uint8(s) for s in shape)
     if form == "int":
         return int(shape[0])
+    if form == "npint":
+        return np.int64(shape[0])
     raise ValueError(form)
 
 
 @st.composite
 def _shape_and_form(draw, tier, **kw):
     shape = draw(gen.shapes(tier, **kw))
-    forms = list(_SHAPE_FORMS) + (["int", "int"] if len(shape) == 1 else [])
+    forms = list(_SHAPE_FORMS) + (["int", "int", "npint"] if len(shape) == 1 else [])
     return shape, draw(st.sampled_from(forms))
 
 
 def tup(s):
     return tuple(int(v) for v in s)
+
+
+_U8 = "/uint8-shape-entries-product-overflows"
+
+
+def u8_overflow(form, built_shape, surviving=True):
+    """pure function of the request: the shape is a tuple of np.uint8 entries (each fits) whose product does not fit a byte
+    (``surviving``: at least one np.uint8 entry is still in the shape the generator multiplies out)"""
+    return form == "npuint8-tuple" and surviving and ref.prod(built_shape) > 255
+
+
+def spoil_tensor(T):
+    """overwrite every entry of a dense tensor the caller was given, through subscripted assignment (assignment itself is
+    another property's subject: if it raises, the result simply stays as it was)"""
+    try:
+        shape = tuple(int(x) for x in T.shape)
+        if len(shape) and all(shape):
+            T[tuple(slice(0, n) for n in shape)] = -3.25
+    except Exception:  # noqa: BLE001
+        pass
+
+
+def spoil_sptensor(S):
+    """overwrite stored values of a sparse tensor the caller was given (assignment to existing and to new entries)"""
+    try:
+        if S.subs.size:
+            for row in np.array(S.subs, copy=True)[:3]:
+                S[tuple(int(x) for x in row)] = 9.75
+        S[tuple(0 for _ in S.shape)] = 1.5
+    except Exception:  # noqa: BLE001
+        pass
 
 
 def _is_F_tensor(ctx, T, shape, what):
@@ -92,31 +147,44 @@ def _dense_gen_case(draw, tier):
                 np_seed=draw(st.integers(0, 2 ** 31 - 1)))
 
 
-@cell("C20/dense/ones-zeros-rand", strategy=_dense_gen_case, quick=500, thorough=10000, shards=(1, 8))
-def dense_generators(ctx, case):
+def _dense_generators(ctx, case):
     shape = tuple(case["shape"])
     ctx.label(*gen.shape_classes(shape), "form-" + case["form"], f"order-{case['order']}")
     ctx.nt = len(set(shape)) >= 2
     kw = {} if case["order"] is None else dict(order=case["order"])
-    with ctx.sut("tenones"):
-        O = ttb.tenones(_shape_arg(shape, case["form"]), **kw)
-    _is_F_tensor(ctx, O, shape, "tenones")
-    ctx.check(O.data.dtype == np.float64 and bool(np.all(O.data == 1.0)), "tenones-all-one")
-    with ctx.sut("tenzeros"):
-        Z = ttb.tenzeros(_shape_arg(shape, case["form"]), **kw)
-    _is_F_tensor(ctx, Z, shape, "tenzeros")
-    ctx.check(Z.data.dtype == np.float64 and bool(np.all(Z.data == 0.0)), "tenzeros-all-zero")
-    np.random.seed(case["np_seed"])
-    with ctx.sut("tenrand"):
-        R = ttb.tenrand(_shape_arg(shape, case["form"]), **kw)
-    _is_F_tensor(ctx, R, shape, "tenrand")
-    ctx.check(R.data.dtype == np.float64 and bool(np.all((R.data >= 0.0) & (R.data < 1.0))), "tenrand-in-unit-interval",
-              (float(R.data.min()), float(R.data.max())))
-    np.random.seed(case["np_seed"])
-    with ctx.sut("tenrand-again"):
-        R2 = ttb.tenrand(_shape_arg(shape, case["form"]), **kw)
-    ctx.check(np.array_equal(R.data, R2.data), "tenrand-reproducible-under-seed")
-    ctx.check(R.data is not R2.data and not np.shares_memory(O.data, Z.data), "generators-return-fresh-data")
+    keep = {}
+    u8 = _U8 if u8_overflow(case["form"], shape) else ""
+    ctx.label("uint8-entries-product-overflows" if u8 else "shape-product-fits-entry-dtype")
+    for tag in ("", "/second-call"):
+        with ctx.sut("tenones" + u8 + tag):
+            O = ttb.tenones(_shape_arg(shape, case["form"]), **kw)
+        _is_F_tensor(ctx, O, shape, "tenones" + tag)
+        ctx.check(O.data.dtype == np.float64 and bool(np.all(O.data == 1.0)), "tenones-all-one" + tag)
+        with ctx.sut("tenzeros" + u8 + tag):
+            Z = ttb.tenzeros(_shape_arg(shape, case["form"]), **kw)
+        _is_F_tensor(ctx, Z, shape, "tenzeros" + tag)
+        ctx.check(Z.data.dtype == np.float64 and bool(np.all(Z.data == 0.0)), "tenzeros-all-zero" + tag)
+        np.random.seed(case["np_seed"])
+        with ctx.sut("tenrand" + u8 + tag):
+            R = ttb.tenrand(_shape_arg(shape, case["form"]), **kw)
+        _is_F_tensor(ctx, R, shape, "tenrand" + tag)
+        ctx.check(R.data.dtype == np.float64 and bool(np.all((R.data >= 0.0) & (R.data < 1.0))),
+                  "tenrand-in-unit-interval" + tag, (float(R.data.min()), float(R.data.max())))
+        if tag == "":
+            keep["R"] = np.array(R.data, copy=True)
+            ctx.check(not np.shares_memory(O.data, Z.data) and not np.shares_memory(O.data, R.data), "generators-return-fresh-data")
+            # the caller overwrites what it was given, asks for something else, then repeats the request
+            for T in (O, Z, R):
+                spoil_tensor(T)
+            with ctx.sut("tenrand-unrelated-request"):
+                ttb.tenrand((2, 3))
+        else:
+            ctx.check(np.array_equal(R.data, keep["R"]), "tenrand-reproducible-under-seed")
+
+
+@cell("C20/dense/ones-zeros-rand", strategy=_dense_gen_case, quick=500, thorough=10000, shards=(1, 8))
+def dense_generators(ctx, case):
+    _dense_generators(ctx, case)
 
 
 # ==========================================================================
@@ -134,6 +202,10 @@ def _from_function_case(draw, tier):
 
 @cell("C20/dense/from_function", strategy=_from_function_case, quick=500, thorough=10000, shards=(1, 8))
 def dense_from_function(ctx, case):
+    _dense_from_function(ctx, case)
+
+
+def _dense_from_function(ctx, case):
     """a function returning an array of the requested shape (any layout) defines T[i] = f(shape)[i]; a flat vector is the
     first-index-fastest listing (docstring: 'return a 1D vector' to avoid reordering)"""
     shape = tuple(case["shape"])
@@ -158,12 +230,17 @@ def dense_from_function(ctx, case):
         big[sl] = A
         return big[sl]
 
-    with ctx.sut("tensor.from_function"):
-        T = ttb.tensor.from_function(fun, _shape_arg(shape, case["form"]))
-    ctx.check(len(calls) == 1 and isinstance(calls[0], tuple) and tup(calls[0]) == shape, "from_function-called-with-shape",
-              calls)
-    _is_F_tensor(ctx, T, shape, "from_function")
-    ctx.check(ref.same_exact(T.data, A), "from_function-entries-are-function-output", ref.diff_info(T.data, A))
+    u8 = _U8 if u8_overflow(case["form"], shape) else ""
+    ctx.label("uint8-entries-product-overflows" if u8 else "shape-product-fits-entry-dtype")
+    for n, tag in ((1, ""), (2, "/second-call")):
+        with ctx.sut("tensor.from_function" + u8 + tag):
+            T = ttb.tensor.from_function(fun, _shape_arg(shape, case["form"]))
+        ctx.check(len(calls) == n and isinstance(calls[-1], tuple) and tup(calls[-1]) == shape,
+                  "from_function-called-with-shape" + tag, calls)
+        _is_F_tensor(ctx, T, shape, "from_function" + tag)
+        ctx.check(ref.same_exact(T.data, A), "from_function-entries-are-function-output" + tag, ref.diff_info(T.data, A))
+        spoil_tensor(T)
+    ctx.check(ref.same_exact(A, gen.arr_F(shape, case["data"])), "from_function-leaves-function-output")
 
 
 # ==========================================================================
@@ -191,7 +268,13 @@ def _diag_case(draw, tier):
         # make "shorter / equal / longer than some mode" all likely
         if draw(st.booleans()) and n >= 2:
             shape[draw(st.integers(0, n - 1))] = k
-    elform = draw(st.sampled_from(["list", "ndarray", "tuple", "col", "scalar" if k == 1 else "list"]))
+    elform = draw(st.sampled_from(["list", "ndarray", "tuple", "col", "scalar" if k == 1 else "list"] +
+                                  (["ndarray-int64", "ndarray-int32", "ndarray-uint8", "ndarray-bool", "list-int"]
+                                   if vkind == "int" else [])))
+    if elform == "ndarray-uint8":
+        el = [abs(v) for v in el]
+    elif elform == "ndarray-bool":
+        el = [float(v != 0) for v in el]
     sform = draw(st.sampled_from(_SHAPE_FORMS + (["int"] if shape and len(shape) == 1 else [])))
     return dict(elements=el, shape=shape, elform=elform, sform=sform, vkind=vkind,
                 order=draw(st.sampled_from(["F", "C", None])))
@@ -206,6 +289,10 @@ def _el_arg(el, form):
         return np.array(el, dtype=float)
     if form == "col":
         return np.array(el, dtype=float).reshape(-1, 1)
+    if form.startswith("ndarray-"):
+        return np.array(el, dtype=float).astype(np.dtype(form[len("ndarray-"):]))
+    if form == "list-int":
+        return [int(v) for v in el]
     return float(el[0])
 
 
@@ -218,8 +305,19 @@ def _diag_expect(el, shape):
     return E
 
 
+def diag_u8(case):
+    """tendiag enlarges a mode shorter than the element vector to its (python int) length: a np.uint8 entry survives
+    only where the mode is longer"""
+    shape, k = case["shape"], len(case["elements"])
+    return shape is not None and u8_overflow(case["sform"], [max(k, d) for d in shape], any(d > k for d in shape))
+
+
 @cell("C20/diag", strategy=_diag_case, quick=600, thorough=12000, shards=(1, 8))
 def diagonals(ctx, case):
+    _diagonals(ctx, case)
+
+
+def _diagonals(ctx, case):
     """tendiag / sptendiag: the given values at (i,i,...,i), zero elsewhere, shape = requested shape enlarged to the
     number of elements where a mode is shorter (docstring)"""
     el, shape = case["elements"], case["shape"]
@@ -232,28 +330,36 @@ def diagonals(ctx, case):
                   *(["elements-longer-than-a-mode"] if any(k > d for d in shape) else []),
                   *(["elements-shorter-than-a-mode"] if any(k < d for d in shape) else []),
                   *(["elements-equal-a-mode"] if any(k == d for d in shape) else []))
-    ctx.label("has-zero-element" if any(v == 0 for v in el) else "no-zero-element", f"order{E.ndim}")
+    ctx.label("has-zero-element" if any(v == 0 for v in el) else "no-zero-element", f"order{E.ndim}", "elements-" + case["elform"],
+              "shape-" + str(case["sform"]))
     ctx.nt = shape is not None and len(set(shape)) >= 2 and any(k != d for d in shape) and k >= 2
-    args = [_el_arg(el, case["elform"])]
-    if shape is not None:
-        args.append(_shape_arg(shape, case["sform"]))
     kw = {} if case["order"] is None else dict(order=case["order"])
-    with ctx.sut("tendiag"):
-        T = ttb.tendiag(*args, **kw)
-    _is_F_tensor(ctx, T, E.shape, "tendiag")
-    ctx.check(ref.same_exact(T.data, E), "tendiag-values-on-superdiagonal-zero-elsewhere", ref.diff_info(T.data, E))
-    args = [_el_arg(el, case["elform"])]
-    if shape is not None:
-        args.append(_shape_arg(shape, case["sform"]))
-    with ctx.sut("sptendiag"):
-        S = ttb.sptendiag(*args)
-    ctx.require(isinstance(S, ttb.sptensor), "sptendiag-returns-sptensor", type(S).__name__)
-    ctx.check(tup(S.shape) == E.shape, "sptendiag-shape", f"{S.shape} vs {E.shape}")
-    probs = ref.sptensor_problems(S)
-    ctx.require(not probs, "sptendiag-wellformed", probs)
-    ctx.check(ref.same_exact(ref.den(S), E), "sptendiag-values-on-superdiagonal-zero-elsewhere",
-              ref.diff_info(ref.den(S), E))
-    ctx.check(S.nnz == sum(1 for v in el if v != 0), "sptendiag-stores-nonzero-elements-only", S.nnz)
+
+    def args():
+        out = [_el_arg(el, case["elform"])]
+        if shape is not None:
+            out.append(_shape_arg(shape, case["sform"]))
+        return out
+
+    u8 = _U8 if diag_u8(case) else ""
+    ctx.label("uint8-entries-product-overflows" if u8 else "shape-product-fits-entry-dtype")
+    for tag in ("", "/second-call"):
+        with ctx.sut("tendiag" + u8 + tag):
+            T = ttb.tendiag(*args(), **kw)
+        _is_F_tensor(ctx, T, E.shape, "tendiag" + tag)
+        ctx.check(ref.same_exact(T.data, E), "tendiag-values-on-superdiagonal-zero-elsewhere" + tag, ref.diff_info(T.data, E))
+        with ctx.sut("sptendiag" + tag):
+            S = ttb.sptendiag(*args())
+        ctx.require(isinstance(S, ttb.sptensor), "sptendiag-returns-sptensor" + tag, type(S).__name__)
+        ctx.check(tup(S.shape) == E.shape, "sptendiag-shape" + tag, f"{S.shape} vs {E.shape}")
+        probs = ref.sptensor_problems(S)
+        ctx.require(not probs, "sptendiag-wellformed" + tag, probs)
+        ctx.check(ref.same_exact(ref.den(S), E), "sptendiag-values-on-superdiagonal-zero-elsewhere" + tag,
+                  ref.diff_info(ref.den(S), E))
+        ctx.check(S.nnz == sum(1 for v in el if v != 0), "sptendiag-stores-nonzero-elements-only" + tag, S.nnz)
+        if tag == "":
+            spoil_tensor(T)
+            spoil_sptensor(S)
 
 
 # ==========================================================================
@@ -273,6 +379,7 @@ def _enum_teneye(tier):
         for n in (1, 2, 3):
             for order in ("F", "C", None):
                 yield dict(ndims=m, size=n, order=order, expect="identity")
+            yield dict(ndims=m, size=n, order=None, expect="identity", npargs=True)  # numpy integer scalars
     if tier == "thorough":
         yield dict(ndims=8, size=2, order=None, expect="identity")
         yield dict(ndims=2, size=6, order=None, expect="identity")
@@ -297,41 +404,56 @@ def _identity_tensor_ref(m, n):
 
 @cell("C20/teneye", enum=_enum_teneye, shards=(2, 8))
 def teneye_cell(ctx, case):
+    isolated(ctx, _teneye, case)
+
+
+def _teneye(ctx, case):
     m, n = case["ndims"], case["size"]
     ctx.nt = case["expect"] == "identity" and m >= 4 and n >= 2
-    ctx.label(f"ndims{m}", f"size{n}", case["expect"])
+    ctx.label(f"ndims{m}", f"size{n}", case["expect"], "numpy-scalar-arguments" if case.get("npargs") else "int-arguments")
     kw = {} if case["order"] is None else dict(order=case["order"])
+    margs = (np.int64(m), np.int32(n)) if case.get("npargs") else (m, n)
     if case["expect"] == "raises":
         # stated: "An identity tensor only exists if order is even" / ValueError("Order must be even ...")
         ctx.raises("teneye-odd-order-answered", ttb.teneye, m, n, **kw)
         return
-    with ctx.sut("teneye"):
-        T = ttb.teneye(m, n, **kw)
-    _is_F_tensor(ctx, T, (n,) * m, "teneye")
-    A = np.asarray(T.data, dtype=float)
     letters = "abcdefgh"[:m]
     xs = _XS.get(n) or [list(np.eye(n)[0]), list(np.ones(n) / np.sqrt(n)), list(np.arange(1, n + 1) / np.linalg.norm(np.arange(1, n + 1)))]
-    worst = 0.0
-    for x in xs:
-        x = np.array(x, dtype=float)
-        x = x / np.sqrt(np.dot(x, x))
-        got = np.einsum(letters + "," + ",".join(letters[1:]) + "->" + letters[0], A, *([x] * (m - 1))) if m > 1 else A
-        worst = max(worst, float(np.max(np.abs(got - x))))
-    ctx.check(worst <= 1e-12, "teneye-acts-as-identity-on-unit-vectors", worst)
-    # symmetric in all modes
-    sym = all(np.array_equal(A, np.transpose(A, p)) for p in itertools.permutations(range(m))) if m <= 6 else True
-    ctx.check(sym, "teneye-symmetric")
-    if n ** m <= 4096 and m <= 6:
-        E = _identity_tensor_ref(m, n)
-        ctx.check(bool(np.all(np.abs(A - E) <= 4 * ref.EPS)), "teneye-entries", ref.diff_info(A, E))
-    # the tensor's own symmetric product agrees (ttsv with skip_dim=0 is what the docstring names)
-    if m >= 2:
-        x = np.array(xs[-1], dtype=float)
-        x = x / np.sqrt(np.dot(x, x))
-        with ctx.sut("teneye.ttsv"):
-            y = T.ttsv(x, 0)
-        yv = np.asarray(y, dtype=float).reshape(-1)  # (ttsv hands back a bare scalar when size == 1: not teneye's business)
-        ctx.check(yv.shape == (n,) and float(np.max(np.abs(yv - x))) <= 1e-12, "teneye-ttsv-skip0-returns-x", yv.tolist())
+    E = _identity_tensor_ref(m, n) if (n ** m <= 4096 and m <= 6) else None
+    for tag in ("", "/second-call", "/third-call"):
+        with ctx.sut("teneye" + tag):
+            T = ttb.teneye(*margs, **kw)
+        _is_F_tensor(ctx, T, (n,) * m, "teneye" + tag)
+        A = np.asarray(T.data, dtype=float)
+        worst = 0.0
+        for x in xs:
+            x = np.array(x, dtype=float)
+            x = x / np.sqrt(np.dot(x, x))
+            got = np.einsum(letters + "," + ",".join(letters[1:]) + "->" + letters[0], A, *([x] * (m - 1))) if m > 1 else A
+            worst = max(worst, float(np.max(np.abs(got - x))))
+        ctx.check(worst <= 1e-12, "teneye-acts-as-identity-on-unit-vectors" + tag, worst)
+        # symmetric in all modes
+        sym = all(np.array_equal(A, np.transpose(A, p)) for p in itertools.permutations(range(m))) if m <= 6 else True
+        ctx.check(sym, "teneye-symmetric" + tag)
+        if E is not None:
+            ctx.check(bool(np.all(np.abs(A - E) <= 4 * ref.EPS)), "teneye-entries" + tag, ref.diff_info(A, E))
+        # the tensor's own symmetric product agrees (ttsv with skip_dim=0 is what the docstring names)
+        if m >= 2:
+            x = np.array(xs[-1], dtype=float)
+            x = x / np.sqrt(np.dot(x, x))
+            with ctx.sut("teneye.ttsv" + tag):
+                y = T.ttsv(x, 0)
+            yv = np.asarray(y, dtype=float).reshape(-1)  # (ttsv hands back a bare scalar when size == 1: not teneye's business)
+            ctx.check(yv.shape == (n,) and float(np.max(np.abs(yv - x))) <= 1e-12, "teneye-ttsv-skip0-returns-x" + tag, yv.tolist())
+        # the caller edits the tensor it was given (single entries first, then everything) before asking again
+        if tag == "":
+            try:
+                T[(0,) * m] = 5.0
+                T[(n - 1,) * m] = 0.0
+            except Exception:  # noqa: BLE001
+                pass
+        else:
+            spoil_tensor(T)
 
 
 # ==========================================================================
@@ -380,15 +502,20 @@ def _sprand_case(draw, tier):
         value = (c - 1 + t) / size
         if value >= 1.0 or value <= 0.0:
             value = (c - 0.5) / size
-    return dict(shape=shape, form=form, kind=kind, value=value, np_seed=draw(st.integers(0, 2 ** 31 - 1)),
-                api=draw(st.sampled_from(["sptenrand", "from_function"])) if kind != "density" else "sptenrand")
+    api = draw(st.sampled_from(["sptenrand", "from_function"])) if kind != "density" else "sptenrand"
+    # numeric type of the count / density: python number or numpy scalar (sptenrand checks isinstance(.., (int, float)) on
+    # its count, which np.float64 satisfies and np.int64 does not: the integer numpy scalar goes to from_function only)
+    numtypes = ["python", "python", "np.float64"] + (["np.int64"] if api == "from_function" and float(value) == int(value) and value >= 1 else [])
+    return dict(shape=shape, form=form, kind=kind, value=value, np_seed=draw(st.integers(0, 2 ** 31 - 1)), api=api,
+                numtype=draw(st.sampled_from(numtypes)))
 
 
-def _check_random_sparse(ctx, S, shape, want, what, requested_class):
-    ctx.require(isinstance(S, ttb.sptensor), f"{what}-returns-sptensor", type(S).__name__)
-    ctx.check(tup(S.shape) == tuple(shape), f"{what}-shape", f"{S.shape} vs {shape}")
+def _check_random_sparse(ctx, S, shape, want, what, requested_class, tag=""):
+    requested_class = requested_class + tag
+    ctx.require(isinstance(S, ttb.sptensor), f"{what}-returns-sptensor{tag}", type(S).__name__)
+    ctx.check(tup(S.shape) == tuple(shape), f"{what}-shape{tag}", f"{S.shape} vs {shape}")
     probs = ref.sptensor_problems(S)
-    ctx.require(not probs, f"{what}-wellformed", probs)
+    ctx.require(not probs, f"{what}-wellformed{tag}", probs)
     n = int(S.nnz)
     if n not in want:
         if n < min(want):
@@ -400,28 +527,46 @@ def _check_random_sparse(ctx, S, shape, want, what, requested_class):
 
 @cell("C20/sparse/random", strategy=_sprand_case, quick=800, thorough=16000, shards=(2, 8))
 def sparse_random(ctx, case):
+    _sparse_random(ctx, case)
+
+
+def _sparse_random(ctx, case):
     shape = tuple(case["shape"])
     size = ref.prod(shape)
     kind, value = case["kind"], case["value"]
     want = _requested(size, kind, value)
     req = max(want)
+    nt_ = case.get("numtype", "python")
     ctx.label("api-" + case["api"], "kind-" + kind, "request-1" if req <= 1 else ("request-above-half" if 2 * req > size else "request-low"),
-              *gen.shape_classes(shape))
+              *gen.shape_classes(shape), "form-" + case["form"], "number-" + nt_)
     ctx.nt = 2 * req > size and len(set(shape)) >= 2
     rclass = request_class(case)
-    sarg = _shape_arg(shape, case["form"])
+    num = {"python": lambda v: v, "np.float64": np.float64, "np.int64": lambda v: np.int64(int(v))}[nt_]
+
+    def unrelated():
+        # another request in between (no reseeding): what it leaves behind must not matter after the next np.random.seed
+        other = (3, 2) if shape != (3, 2) else (2, 4)
+        try:
+            spoil_sptensor(ttb.sptenrand(other, nonzeros=3))
+        except Exception:  # noqa: BLE001
+            pass
+
     if case["api"] == "sptenrand":
-        kw = dict(density=float(value)) if kind == "density" else dict(nonzeros=value)
-        np.random.seed(case["np_seed"])
-        with ctx.sut("sptenrand"):
-            S = ttb.sptenrand(sarg, **kw)
-        n = _check_random_sparse(ctx, S, shape, want, "sptenrand", rclass)
-        v = np.asarray(S.vals, dtype=float).reshape(-1)
-        ctx.check(bool(np.all((v >= 0) & (v < 1))), "sptenrand-values-in-unit-interval")
-        np.random.seed(case["np_seed"])
-        with ctx.sut("sptenrand-again"):
-            S2 = ttb.sptenrand(_shape_arg(shape, case["form"]), **kw)
-        ctx.check(np.array_equal(S.subs, S2.subs) and np.array_equal(S.vals, S2.vals), "sptenrand-reproducible-under-seed")
+        kw = dict(density=num(float(value))) if kind == "density" else dict(nonzeros=num(value))
+        first = None
+        for tag in ("", "/second-call"):
+            np.random.seed(case["np_seed"])
+            with ctx.sut("sptenrand" + tag):
+                S = ttb.sptenrand(_shape_arg(shape, case["form"]), **kw)
+            _check_random_sparse(ctx, S, shape, want, "sptenrand", rclass, tag)
+            v = np.asarray(S.vals, dtype=float).reshape(-1)
+            ctx.check(bool(np.all((v >= 0) & (v < 1))), "sptenrand-values-in-unit-interval" + tag)
+            if first is None:
+                first = (np.array(S.subs, copy=True), np.array(S.vals, copy=True))
+                spoil_sptensor(S)
+                unrelated()
+            else:
+                ctx.check(np.array_equal(S.subs, first[0]) and np.array_equal(S.vals, first[1]), "sptenrand-reproducible-under-seed")
     else:
         calls = []
 
@@ -429,19 +574,23 @@ def sparse_random(ctx, case):
             calls.append(s)
             return (np.arange(ref.prod(s), dtype=float) + 1.5).reshape(s)
 
-        np.random.seed(case["np_seed"])
-        with ctx.sut("sptensor.from_function"):
-            S = ttb.sptensor.from_function(fun, sarg, value)
-        n = _check_random_sparse(ctx, S, shape, want, "from_function", rclass)
-        ctx.check(len(calls) == 1 and tup(calls[0]) == (n, 1), "from_function-one-value-per-nonzero-requested-from-function",
-                  calls)
-        ctx.check(np.array_equal(np.asarray(S.vals, dtype=float).reshape(-1), np.arange(n, dtype=float) + 1.5),
-                  "from_function-values-are-function-output")
-        np.random.seed(case["np_seed"])
-        with ctx.sut("sptensor.from_function-again"):
-            S2 = ttb.sptensor.from_function(fun, _shape_arg(shape, case["form"]), value)
-        ctx.check(np.array_equal(S.subs, S2.subs) and np.array_equal(S.vals, S2.vals),
-                  "from_function-reproducible-under-seed")
+        first = None
+        for k, tag in ((1, ""), (2, "/second-call")):
+            np.random.seed(case["np_seed"])
+            with ctx.sut("sptensor.from_function" + tag):
+                S = ttb.sptensor.from_function(fun, _shape_arg(shape, case["form"]), num(value))
+            n = _check_random_sparse(ctx, S, shape, want, "from_function", rclass, tag)
+            ctx.check(len(calls) == k and tup(calls[-1]) == (n, 1),
+                      "from_function-one-value-per-nonzero-requested-from-function" + tag, calls)
+            ctx.check(np.array_equal(np.asarray(S.vals, dtype=float).reshape(-1), np.arange(n, dtype=float) + 1.5),
+                      "from_function-values-are-function-output" + tag)
+            if first is None:
+                first = (np.array(S.subs, copy=True), np.array(S.vals, copy=True))
+                spoil_sptensor(S)
+                unrelated()
+            else:
+                ctx.check(np.array_equal(S.subs, first[0]) and np.array_equal(S.vals, first[1]),
+                          "from_function-reproducible-under-seed")
 
 
 def request_class(case):
@@ -458,7 +607,9 @@ def request_class(case):
 # sptensor.from_aggregator
 # ==========================================================================
 
-_REDUCERS = ["default", "sum", "max", "min", "np.mean", "np.sum", "np.max", "callable-range", "callable-count", "prod"]
+# every reducer by name and as the matching NumPy callable, plus two plain Python callables
+_REDUCERS = ["default", "sum", "np.sum", "max", "np.max", "min", "np.min", "mean", "np.mean", "prod", "np.prod",
+             "callable-range", "callable-count"]
 
 
 def _reduce(name, vals):
@@ -466,22 +617,23 @@ def _reduce(name, vals):
         return float(np.sum(np.array(vals, dtype=float)))
     if name in ("max", "np.max"):
         return float(max(vals))
-    if name == "min":
+    if name in ("min", "np.min"):
         return float(min(vals))
-    if name == "np.mean":
+    if name in ("mean", "np.mean"):
         return float(np.sum(np.array(vals, dtype=float)) / len(vals))
     if name == "callable-range":
         return float(max(vals) - min(vals))
     if name == "callable-count":
         return float(len(vals))
-    if name == "prod":
+    if name in ("prod", "np.prod"):
         return float(np.prod(np.array(vals, dtype=float)))
     raise ValueError(name)
 
 
 def _reducer_arg(name):
     return {
-        "sum": "sum", "max": "max", "min": "min", "prod": "prod", "np.mean": np.mean, "np.sum": np.sum, "np.max": np.max,
+        "sum": "sum", "max": "max", "min": "min", "prod": "prod", "mean": "mean", "np.mean": np.mean, "np.sum": np.sum,
+        "np.max": np.max, "np.min": np.min, "np.prod": np.prod,
         "callable-range": lambda g: np.max(g) - np.min(g), "callable-count": lambda g: float(len(g)),
     }[name]
 
@@ -498,26 +650,59 @@ def _agg_case(draw, tier):
         mult = draw(st.sampled_from([1, 1, 2, 3, 4]))
         vs = draw(st.lists(gen.values(vkind), min_size=mult, max_size=mult))
         if mult >= 2 and draw(st.integers(0, 3)) == 0:
-            vs[-1] = -sum(vs[:-1]) if vkind == "int" else vs[-1]  # a group that sums to zero
+            # a group that sums to exactly zero (general floats: a value and its negative, the rest zeros)
+            vs = vs[:-1] + [-sum(vs[:-1])] if vkind == "int" else [vs[0], -vs[0]] + [0.0] * (mult - 2)
         for v in vs:
             rows.append(list(s))
             vals.append(v)
     if len(rows) > 1:
         p = draw(st.permutations(range(len(rows))))
         rows, vals = [rows[i] for i in p], [vals[i] for i in p]
-    return dict(shape=shape, subs=rows, vals=vals, vkind=vkind,
+    # a subscript at the top of a narrow dtype's range: one mode is made long enough and one row is moved to its end
+    top = draw(st.sampled_from([None, None, None, None, 255, 255, 256, 299]))
+    if top is not None and rows:
+        k = draw(st.integers(0, len(shape) - 1))
+        shape = list(shape)
+        shape[k] = top + 1
+        moved = rows[draw(st.integers(0, len(rows) - 1))]
+        for r in rows:  # every copy of that subscript moves (it stays one group)
+            if r is not moved and r == moved:
+                r[k] = top
+        moved[k] = top
+    hi = max([max(r) for r in rows], default=0)
+    sdt = draw(st.sampled_from(["int64", "int64", "int32"] + (["uint8"] if hi <= 255 else []) + ["uint16"]))
+    scale = draw(st.sampled_from([1.0, 1.0, 1.0, 1e-6, 1e6])) if vkind == "float" else 1.0
+    return dict(shape=shape, subs=rows, vals=[v * scale for v in vals], vkind=vkind, scale=scale,
                 give_shape=draw(st.sampled_from(["given", "given", "inferred", "larger"])) if rows else "given",
-                sform=draw(st.sampled_from(_SHAPE_FORMS)), reducer=draw(st.sampled_from(_REDUCERS)),
-                vals_dtype=draw(st.sampled_from(["float", "float", "int"])) if vkind == "int" else "float")
+                sform=draw(st.sampled_from(_SHAPE_FORMS)) if max(shape) <= 255 else draw(st.sampled_from(["tuple", "list", "ndarray", "ndarray-int32"])),
+                reducer=draw(st.sampled_from(_REDUCERS)), subs_dtype=sdt,
+                subs_layout=draw(st.sampled_from(["C", "C", "F", "strided"])),
+                vals_dtype=draw(st.sampled_from(["float", "float", "int", "int32", "uint8"])) if vkind == "int" else "float")
+
+
+def agg_classes(case):
+    """pure function of the case (labels, clause tags, predicates): does shape inference need a size the subscript
+    dtype cannot hold?"""
+    rows = case["subs"]
+    sdt = np.dtype(case.get("subs_dtype", "int64"))
+    hi = max([max(r) for r in rows], default=0)
+    return dict(inferred_size_overflows_subs_dtype=bool(rows) and case["give_shape"] == "inferred" and hi + 1 > np.iinfo(sdt).max)
 
 
 @cell("C20/aggregator", strategy=_agg_case, quick=1000, thorough=20000, shards=(2, 8))
 def aggregator(ctx, case):
+    _aggregator(ctx, case)
+
+
+def _aggregator(ctx, case):
     """duplicates combined by the reducer (dictionary aggregation), zero results dropped, shape given or inferred"""
     shape = list(case["shape"])
     N = len(shape)
     rows, vals = case["subs"], case["vals"]
     red = case["reducer"]
+    vdt = case["vals_dtype"]
+    if vdt == "uint8":  # values an unsigned byte can hold (sums of a few of them are compared by value)
+        vals = [float(abs(v)) for v in vals]
     groups = {}
     for s, v in zip(rows, vals):
         groups.setdefault(tuple(s), []).append(v)
@@ -532,38 +717,58 @@ def aggregator(ctx, case):
     B = np.zeros(out_shape)
     for s, g in groups.items():
         E[s] = _reduce(red, g)
-        B[s] = float(np.sum(np.abs(g))) if red != "prod" else abs(E[s])
+        B[s] = float(np.sum(np.abs(g))) if red not in ("prod", "np.prod") else abs(E[s])
+    ac = agg_classes(case)
     ctx.label("reducer-" + red, "shape-" + case["give_shape"], "empty" if not rows else
               ("has-repeat" if mults and mults[-1] > 1 else "all-distinct"),
-              "single-row" if len(rows) == 1 else "rows", "vals-" + case["vals_dtype"],
-              "some-group-reduces-to-zero" if any(E[s] == 0 for s in groups) else "no-zero-group")
+              "single-row" if len(rows) == 1 else "rows", "vals-" + vdt, "subs-" + case.get("subs_dtype", "int64"),
+              "some-group-reduces-to-zero" if any(E[s] == 0 for s in groups) else "no-zero-group",
+              f"scale-{case.get('scale', 1.0):g}", "top-of-dtype-subscript" if max(out_shape) > 250 else "small-subscripts",
+              "inferred-size-overflows-subs-dtype" if ac["inferred_size_overflows_subs_dtype"] else "sizes-fit-subs-dtype")
     unsorted_in = rows != sorted(rows, key=lambda r: tuple(reversed(r)))
     ctx.nt = bool(mults and mults[-1] > 1 and unsorted_in and len(set(out_shape)) >= 1 and len(groups) >= 2)
-    subs = np.array(rows, dtype=int).reshape(len(rows), N)
+    subs = np.array(rows, dtype=int).reshape(len(rows), N).astype(np.dtype(case.get("subs_dtype", "int64")))
     v = np.array(vals, dtype=float).reshape(len(rows), 1)
-    if case["vals_dtype"] == "int":
-        v = v.astype(np.int64)
-    args = [subs.copy(), v.copy()]
+    if vdt != "float":
+        v = v.astype(dict(int=np.int64, int32=np.int32, uint8=np.uint8)[vdt])
     kw = {}
     if case["give_shape"] != "inferred":
         kw["shape"] = _shape_arg(out_shape, case["sform"])
     if red != "default":
         kw["function_handle"] = _reducer_arg(red)
-    with ctx.sut("sptensor.from_aggregator"):
-        S = ttb.sptensor.from_aggregator(*args, **kw)
-    ctx.require(isinstance(S, ttb.sptensor), "aggregator-returns-sptensor", type(S).__name__)
-    ctx.check(tup(S.shape) == out_shape, "aggregator-shape", f"{S.shape} vs {out_shape}")
-    probs = ref.sptensor_problems(S)
-    ctx.require(not probs, "aggregator-wellformed-zeros-dropped", probs)
-    got = ref.den(S)
-    if case["vkind"] == "int" and red not in ("np.mean",):
-        ok = ref.same_exact(got, E)
-    else:
-        nterms = max(mults) if mults else 1
-        ok = ref.same_bound(got, E, B, nterms)
-    ctx.check(ok, "aggregator-reduces-duplicates", ref.diff_info(got, E))
-    ctx.check(np.array_equal(subs, np.array(rows, dtype=int).reshape(len(rows), N)) and
-              np.array_equal(v.astype(float).reshape(-1), np.array(vals, dtype=float)), "aggregator-leaves-arguments")
+    # uint8 values: sums are formed in the reducer's accumulator; a value that does not fit the byte is numpy's concern,
+    # so groups are compared only when every exact result fits
+    if vdt == "uint8" and any(abs(E[s]) > 255 for s in groups):
+        ctx.skip("uint8-result-does-not-fit")
+    otag = "/inferred-size-overflows-subs-dtype" if ac["inferred_size_overflows_subs_dtype"] else ""
+    lay = case.get("subs_layout", "C")
+    ctx.label("subs-layout-" + lay)
+    for tag in ("", "/second-call"):
+        a_subs, a_vals = subs.copy(), v.copy()
+        if lay == "F":  # e.g. the transposed array tt_ind2sub hands back
+            a_subs = np.asfortranarray(a_subs)
+        elif lay == "strided" and len(rows):
+            big = np.zeros((2 * len(rows), N), dtype=subs.dtype)
+            big[::2] = subs
+            a_subs = big[::2]
+        with ctx.sut("sptensor.from_aggregator" + otag + tag):
+            S = ttb.sptensor.from_aggregator(a_subs, a_vals, **kw)
+        ctx.require(isinstance(S, ttb.sptensor), "aggregator-returns-sptensor" + tag, type(S).__name__)
+        ctx.check(tup(S.shape) == out_shape, "aggregator-shape" + otag + tag, f"{S.shape} vs {out_shape}")
+        probs = ref.sptensor_problems(S)
+        ctx.require(not probs, "aggregator-wellformed-zeros-dropped" + tag, probs)
+        got = ref.den(S) if tup(S.shape) == out_shape else None
+        if got is not None:
+            if case["vkind"] == "int" and red not in ("np.mean", "mean"):
+                ok = ref.same_exact(got, E)
+            else:
+                nterms = max(mults) if mults else 1
+                ok = ref.same_bound(got, E, B, nterms)
+            ctx.check(ok, "aggregator-reduces-duplicates" + tag, ref.diff_info(got, E))
+        ctx.check(np.array_equal(a_subs, subs) and a_subs.dtype == subs.dtype and np.array_equal(a_vals, v),
+                  "aggregator-leaves-arguments" + tag)
+        if tag == "":
+            spoil_sptensor(S)
 
 
 # ==========================================================================
@@ -581,6 +786,10 @@ def _kfun_case(draw, tier):
 
 @cell("C20/ktensor/from_function", strategy=_kfun_case, quick=500, thorough=10000, shards=(1, 8))
 def ktensor_from_function(ctx, case):
+    _ktensor_from_function(ctx, case)
+
+
+def _ktensor_from_function(ctx, case):
     """unit weights; factor i is what the function returned for (shape[i], rank), asked mode by mode"""
     shape, r = tuple(case["shape"]), case["rank"]
     fms = [np.array(f, dtype=float).reshape(n, r) for f, n in zip(case["factors"], shape)]
@@ -592,6 +801,7 @@ def ktensor_from_function(ctx, case):
         i = len(calls)
         calls.append(s)
         A = fms[i] if i < len(fms) and tup(s) == fms[i].shape else np.full(s, np.nan)
+        A = A.copy()
         if case["output"] == "F":
             return np.asfortranarray(A.copy())
         if case["output"] == "C":
@@ -600,17 +810,30 @@ def ktensor_from_function(ctx, case):
         big[::2, ::2] = A
         return big[::2, ::2]
 
-    with ctx.sut("ktensor.from_function"):
-        K = ttb.ktensor.from_function(fun, _shape_arg(shape, case["form"]), r)
-    ctx.require(isinstance(K, ttb.ktensor), "kfrom_function-returns-ktensor", type(K).__name__)
-    ctx.check([tup(c) for c in calls] == [(n, r) for n in shape], "kfrom_function-asks-one-matrix-per-mode", calls)
-    ctx.check(tup(K.shape) == shape, "kfrom_function-shape", K.shape)
-    w = np.asarray(K.weights)
-    ctx.check(w.shape == (r,) and bool(np.all(w == 1.0)), "kfrom_function-unit-weights", w.tolist())
-    ctx.require(len(K.factor_matrices) == len(shape), "kfrom_function-number-of-factors")
-    ctx.check(all(ref.same_exact(g, f) for g, f in zip(K.factor_matrices, fms)), "kfrom_function-factors-are-function-output")
     A = ref.den_kruskal(np.ones(r), fms)
-    ctx.check(ref.same_exact(ref.den(K), A), "kfrom_function-denotes-sum-of-outer-products")
+    for tag in ("", "/second-call"):
+        del calls[:]
+        with ctx.sut("ktensor.from_function" + tag):
+            K = ttb.ktensor.from_function(fun, _shape_arg(shape, case["form"]), r)
+        ctx.require(isinstance(K, ttb.ktensor), "kfrom_function-returns-ktensor" + tag, type(K).__name__)
+        ctx.check([tup(c) for c in calls] == [(n, r) for n in shape], "kfrom_function-asks-one-matrix-per-mode" + tag, calls)
+        ctx.check(tup(K.shape) == shape, "kfrom_function-shape" + tag, K.shape)
+        w = np.asarray(K.weights)
+        ctx.check(w.shape == (r,) and bool(np.all(w == 1.0)), "kfrom_function-unit-weights" + tag, w.tolist())
+        ctx.require(len(K.factor_matrices) == len(shape), "kfrom_function-number-of-factors" + tag)
+        ctx.check(all(ref.same_exact(g, f) for g, f in zip(K.factor_matrices, fms)),
+                  "kfrom_function-factors-are-function-output" + tag)
+        ctx.check(ref.same_exact(ref.den(K), A), "kfrom_function-denotes-sum-of-outer-products" + tag)
+        if tag == "":
+            # the caller rescales the model it was given in place (absorbs new weights into the first factor)
+            try:
+                K.weights[...] = 2.0
+                K.redistribute(0)
+                K.normalize()
+            except Exception:  # noqa: BLE001
+                pass
+    ctx.check(all(ref.same_exact(f, np.array(f0, dtype=float).reshape(n, r)) for f, f0, n in zip(fms, case["factors"], shape)),
+              "kfrom_function-leaves-function-output")
 
 
 # ==========================================================================
@@ -629,4 +852,8 @@ PREDICATES = {
     "request_two_or_more": lambda c: request_class(c) == "two-or-more",
     # sptenrand(density=d) hands d*size to from_function, which treats a value < 1 as a density again
     "density_below_one_entry": lambda c: request_class(c) == "density-below-one-entry",
+    # from_aggregator infers the shape as np.max(subs, axis=0) + 1 in the dtype of subs
+    "inferred_size_overflows_subs_dtype": lambda c: agg_classes(c)["inferred_size_overflows_subs_dtype"],
+    # parse_shape keeps numpy-integer entries of a tuple / list shape; sizes are then multiplied in that dtype
+    "uint8_tuple_shape_product_overflows": lambda c: diag_u8(c) if "elements" in c else u8_overflow(c.get("form"), c["shape"]),
 }
